@@ -1,25 +1,59 @@
 (* C15: the type checker accepts exactly the well-typed programs.
    Only statements here; proofs live in Proof/Check*.v.
      check            Model/Check.v     faithful model of fun::syntax::program::Program::check (as it is
-                                        since fix d524b1f of /repo)
-     check_before_fix Model/Check.v     the same without the line that fix added (regression statements)
+                                        since fixes d524b1f, <commit15>, <commit12> of /repo)
+     check_before_fix Model/Check.v     the same without the line that fix d524b1f added (regression statements)
+     old_check_decls  Model/Check.v     the same with the declaration types checked by head name only, the code
+                                        before fix <commit15> (regression statements)
+     old_check_main   Model/Check.v     the same without the comparison of main's return type with i64, the code
+                                        before fix <commit12> (regression statements; C12)
      has_type         Sem/FunTyping.v   the declarative typing rules (independent of the model)
-   Full-strength statements first.  Soundness is FALSE of the faithful model and of the real checker
-   (witnesses corpus/fun/c15-ill-accepted-*.sc, re-confirmed on every run; known finding
-   C15-lazy-declaration-types).  Completeness was false as well until fix d524b1f (instance-creation
-   order); the former witnesses corpus/fun/c15-wt-instance-order*.sc are regression inputs now. *)
+   Soundness was FALSE of the checker until fix <commit15> (types written in data/codata declarations were checked
+   by head name only; former known finding C15-lazy-declaration-types, witnesses corpus/fun/c15-ill-accepted-*.sc,
+   now regression inputs).  Completeness was false until fix d524b1f (instance-creation order; witnesses
+   corpus/fun/c15-wt-instance-order*.sc).  Now: for identifier-like names (every parsed program) the checker
+   DECIDES the typing rules (C15_check_exact_poly_partial, C15_check_decides). *)
 From Coq Require Import List String Bool Permutation.
-From SCC Require Import Lang.FunSyn Model.Check Sem.FunTyping Sem.FunErase Proof.CheckWitness Proof.CheckAnn Proof.TypingReject Proof.CheckMono Proof.CheckProof.
+From SCC Require Import Lang.SynUtil Lang.FunSyn Model.Check Sem.FunTyping Sem.FunErase Proof.CheckWitness Proof.CheckAnn Proof.TypingReject Proof.CheckMono Proof.CheckProof.
 From SCC Require Import Proof.PrintInj Proof.CheckPoly Proof.CheckPolySound Proof.CheckPolyProg Proof.CheckPolyProgC Proof.CheckPolyProof.
-From SCC Require Import Sem.FunNames Sem.FunClosed Proof.CheckBuild Proof.CheckInst Proof.CheckArity Proof.CheckScope.
+From SCC Require Import Sem.FunNames Sem.FunClosed Proof.CheckBuild Proof.CheckInst Proof.CheckArity Proof.CheckScope Proof.CheckDecls Proof.CheckFixed.
 Import ListNotations.
 
-(* Soundness, full statement: `forall p q, check p = COk q -> has_type p`.  False: an ill-formed
-   type inside a data/codata declaration is accepted (types in declarations are checked by head
-   name only, instantiated signatures only where the xtor is applied). *)
-Theorem C15_check_sound_refuted : ~ (forall p q, check p = COk q -> has_type p).
-Proof. exact check_sound_refuted_lemma. Qed.
-Print Assumptions C15_check_sound_refuted.
+(* Soundness, full statement: `forall p q, check p = COk q -> has_type p`.
+   REGRESSION (fix <commit15>): it was false of the checker that looked only at the head name of a type inside a
+   data/codata declaration ([old_check_decls]) - for a PARSED program (identifier-like names): `data Foo { C(x: List) }`
+   with `data List[A] {..}` was accepted.  The witness is rejected by [check] now (C15_declaration_witnesses_rejected).
+   For the current checker soundness is proved for all programs with identifier-like names
+   (C15_check_sound_poly_partial below); over ALL syntax trees the statement stays false for a reason no parser can
+   trigger (C15_names_guard_needed: a type literally named `List[i64]`). *)
+Theorem C15_regression_old_check_decls_unsound :
+  ~ (forall p q, prog_names_ok p = true -> old_check_decls p = COk q -> has_type p).
+Proof.
+  intro H. destruct decl_type_args_accepted_before_fix as [q Hq].
+  assert (Hn : prog_names_ok p_decl_type_args = true) by (vm_compute; reflexivity).
+  specialize (H _ _ Hn Hq). unfold has_type in H. rewrite decl_type_args_ill_typed in H. discriminate.
+Qed.
+Print Assumptions C15_regression_old_check_decls_unsound.
+(* the three shapes of the former finding (wrong number of type arguments, undeclared type in argument position, type
+   parameter applied to arguments): ill-typed, accepted by the old code, rejected by the checker - the witnesses
+   discriminate *)
+Theorem C15_declaration_witnesses_rejected :
+  (has_type_b p_decl_type_args = false /\ (exists q, old_check_decls p_decl_type_args = COk q)
+     /\ check p_decl_type_args = CErr EWrongNumberOfTypeArguments)
+  /\ (has_type_b p_decl_unknown_type = false /\ (exists q, old_check_decls p_decl_unknown_type = COk q)
+     /\ check p_decl_unknown_type = CErr EUndefined)
+  /\ (has_type_b p_param_applied = false /\ (exists q, old_check_decls p_param_applied = COk q)
+     /\ check p_param_applied = CErr EWrongNumberOfTypeArguments).
+Proof.
+  exact (conj (conj decl_type_args_ill_typed (conj decl_type_args_accepted_before_fix decl_type_args_rejected))
+        (conj (conj decl_unknown_type_ill_typed (conj decl_unknown_type_accepted_before_fix decl_unknown_type_rejected))
+              (conj param_applied_ill_typed (conj param_applied_accepted_before_fix param_applied_rejected)))).
+Qed.
+Print Assumptions C15_declaration_witnesses_rejected.
+(* old_check_gen with both switches on IS the checker: the old_ copies differ from it in exactly the repaired places *)
+Theorem C15_old_check_gen_current : forall p, old_check_gen true true p = check p.
+Proof. exact old_check_gen_current. Qed.
+Print Assumptions C15_old_check_gen_current.
 
 (* ---------- partial versions: programs without type parameters and type arguments ----------
    [mono_prog p] (Proof/CheckMono.v): every data/codata declaration has an empty parameter list,
@@ -221,43 +255,77 @@ Print Assumptions C15_reject_duplicate_constructor.
    ==================================================================================================== *)
 
 (* ---------- soundness and completeness for programs WITH type parameters ----------
-   Two boolean guards:
-     [prog_names_ok p]  (Proof/CheckPolyProg.v)  every type / constructor / destructor name occurring in p
+   One boolean guard:
+     [prog_names_ok p]  (Sem/FunNames.v)  every type / constructor / destructor name occurring in p
         is free of the characters "[" "]" "," " " and is not "i64".  True of every parsed program (the lexer's
         classes [A-Z][a-zA-Z0-9_]* and [a-z][a-zA-Z0-9_]*, "i64" being a keyword); needed because instances are
         keyed by PRINTED names: without it a type may be NAMED like an instance ([C15_names_guard_needed]).
-     [decl_types_wf ts] (Proof/CheckPolyProg.v)  the types written inside the data/codata declarations are
-        well-formed: exactly the part of [decls_ok] that the checker does not establish (known finding
-        C15-lazy-declaration-types, [C15_check_sound_refuted]); implied by [has_type].
-   GAP to the full statement: none other than these guards. *)
+   The former second guard [decl_types_wf ts] (Sem/FunNames.v: the types written inside the data/codata declarations
+   are well-formed) is no longer a hypothesis: since fix <commit15> the checker ESTABLISHES it, for all programs
+   (C15_check_accepts_only_wf_declarations).
+   GAP to the full statement: none other than the guard on names. *)
+Theorem C15_check_accepts_only_wf_declarations : forall p q,
+  check p = COk q -> decl_types_wf (tdecls (fpdecls p)) = true.
+Proof. exact (check_gen_decl_types_wf true). Qed.
+Print Assumptions C15_check_accepts_only_wf_declarations.
+Theorem C15_check_rejects_ill_formed_declaration : forall p,
+  decl_types_wf (tdecls (fpdecls p)) = false -> exists e, check p = CErr e.
+Proof. exact (check_gen_rejects_ill_formed_decl true). Qed.
+Print Assumptions C15_check_rejects_ill_formed_declaration.
+(* the check of a declaration type is exactly the rule, in every state the checker can be in: *)
+Theorem C15_check_template_exact : forall ts fs st ps t, tables ts fs st ->
+  forallb (fun p => negb (is_some (find_type ts p))) ps = true ->
+  (ty_check_template st ps t = COk tt <-> wf_tty ts ps t = true).
+Proof. intros ts fs st ps t Tb Hf. exact (ty_check_template_iff ts fs st Tb ps Hf t). Qed.
+Print Assumptions C15_check_template_exact.
+(* nothing is instantiated by that check, so non-regular recursion in a declaration is fine:
+   data Wrap[A] { W(x: A) }  data Nest[A] { Flat(x: A), Deep(n: Nest[Wrap[A]]) } with Deep(Flat(W(5))) : Nest[i64] *)
+Example C15_nonregular_declaration_accepted :
+  has_type_b p_nest = true /\ prog_names_ok p_nest = true
+  /\ exists q, check p_nest = COk q /\ map fdaname (fcpdata q) = ["Nest[Wrap[i64]]"; "Nest[i64]"; "Wrap[i64]"]%string.
+Proof. exact nest_accepted. Qed.
+Print Assumptions C15_nonregular_declaration_accepted.
+
 Theorem C15_check_sound_poly_partial : forall p q,
-  prog_names_ok p = true -> decl_types_wf (tdecls (fpdecls p)) = true -> check p = COk q -> has_type p.
-Proof. exact check_sound_poly. Qed.
+  prog_names_ok p = true -> check p = COk q -> has_type p.
+Proof. exact check_sound. Qed.
 Print Assumptions C15_check_sound_poly_partial.
 Theorem C15_check_complete_poly_partial : forall p,
   prog_names_ok p = true -> has_type p -> exists q, check p = COk q.
 Proof. exact check_complete_poly'. Qed.
 Print Assumptions C15_check_complete_poly_partial.
-(* for identifier-like names the checker accepts exactly the programs that satisfy the typing rules
-   with the declaration types checked by head name only *)
+(* for identifier-like names the checker accepts exactly the programs that satisfy the typing rules ... *)
 Theorem C15_check_exact_poly_partial : forall p, prog_names_ok p = true ->
-  (has_type p <-> (exists q, check p = COk q) /\ decl_types_wf (tdecls (fpdecls p)) = true).
-Proof. exact check_exact_poly. Qed.
+  (has_type p <-> exists q, check p = COk q).
+Proof. exact check_exact. Qed.
 Print Assumptions C15_check_exact_poly_partial.
+(* ... i.e. it decides them: every program is accepted or rejected according to the boolean specification *)
+Theorem C15_check_decides : forall p, prog_names_ok p = true ->
+  (has_type_b p = true -> exists q, check p = COk q) /\ (has_type_b p = false -> exists e, check p = CErr e).
+Proof. exact check_decides. Qed.
+Print Assumptions C15_check_decides.
 Theorem C15_check_order_independent_poly_partial : forall p p', prog_names_ok p = true -> prog_names_ok p' = true ->
-  decl_types_wf (tdecls (fpdecls p)) = true -> decl_types_wf (tdecls (fpdecls p')) = true ->
   (has_type p <-> has_type p') -> ((exists q, check p = COk q) <-> (exists q, check p' = COk q)).
-Proof. exact check_order_independent_poly. Qed.
+Proof. exact check_order_independent. Qed.
 Print Assumptions C15_check_order_independent_poly_partial.
-(* the checker before fix d524b1f was sound under the same guards, so the fix only added acceptances *)
+(* the checker before fix d524b1f was sound under the same guard, so that fix only added acceptances *)
 Theorem C15_regression_before_fix_sound_poly_partial : forall p q,
-  prog_names_ok p = true -> decl_types_wf (tdecls (fpdecls p)) = true -> check_before_fix p = COk q ->
+  prog_names_ok p = true -> check_before_fix p = COk q ->
   has_type p /\ exists q', check p = COk q'.
-Proof.
-  intros p q Hn Hw H. split; [eapply check_before_fix_sound_poly; eassumption|].
-  eapply check_before_fix_accepts_check_accepts_poly; eassumption.
-Qed.
+Proof. exact check_before_fix_sound. Qed.
 Print Assumptions C15_regression_before_fix_sound_poly_partial.
+(* the entry point (fix <commit12>; the rule `main : i64` of Sem/FunTyping.v def_ok): in the checked program every
+   definition named main returns i64 - for ALL programs; a main of another type is rejected with Mismatch (the former
+   witness of C12's finding main-non-integer-result, accepted by the code before the fix) *)
+Theorem C15_check_main_i64 : forall p q d,
+  check p = COk q -> In d (fcpdefs q) -> fdname d = "main"%string -> fdret d = FI64.
+Proof. exact check_main_i64. Qed.
+Print Assumptions C15_check_main_i64.
+Example C15_main_witness_rejected :
+  check p_main_nonint = CErr EMismatch /\ has_type_b p_main_nonint = false /\ prog_names_ok p_main_nonint = true
+  /\ exists q, old_check_main p_main_nonint = COk q.
+Proof. exact main_nonint_rejected. Qed.
+Print Assumptions C15_main_witness_rejected.
 (* the guards are satisfiable by a program with nested instances at several types, which is well-typed
    and accepted (corpus/fun/c15-poly-nested-instances.sc) ... *)
 Example C15_poly_guards_satisfiable :
@@ -267,11 +335,15 @@ Example C15_poly_guards_satisfiable :
        /\ map fcoaname (fcpcodata q) = ["Fun[i64, i64]"]%string.
 Proof. exact (conj p_poly_names_ok (conj p_poly_decl_types_wf (conj p_poly_well_typed p_poly_accepted))). Qed.
 Print Assumptions C15_poly_guards_satisfiable.
-(* ... and the name guard cannot be dropped (a syntax tree whose type is literally named "List[i64]") *)
+(* ... and the name guard cannot be dropped (a syntax tree whose type is literally named "List[i64]"; no parsed
+   program): the full statement over ALL syntax trees is false *)
 Theorem C15_names_guard_needed :
   ~ (forall p q, decl_types_wf (tdecls (fpdecls p)) = true -> check p = COk q -> has_type p).
 Proof. exact check_sound_without_names_guard_refuted. Qed.
 Print Assumptions C15_names_guard_needed.
+Theorem C15_check_sound_all_syntax_trees_refuted : ~ (forall p q, check p = COk q -> has_type p).
+Proof. intro H. apply check_sound_without_names_guard_refuted. intros p q _ Hq. exact (H p q Hq). Qed.
+Print Assumptions C15_check_sound_all_syntax_trees_refuted.
 
 (* ---------- the instance table ----------
    Instances are keyed by PRINTED names (`List[i64]`, `Pair[i64, List[i64]]`); later stages find the
@@ -401,13 +473,19 @@ Theorem C15_reject_wrong_type_argument_count_decl_field : forall p td s t,
   bad_arity_in_decl (tdecls (fpdecls p)) (td_params td) t -> has_type_b p = false.
 Proof. exact reject_wrong_type_argument_count_decl_field. Qed.
 Print Assumptions C15_reject_wrong_type_argument_count_decl_field.
-(* ... the checker does not: known finding C15-lazy-declaration-types (witness `data Foo { C(x: List) }`) *)
-Theorem C15_arity_declaration_field_refuted :
+(* ... and since fix <commit15> so does the checker, for all programs (no guard at all) ... *)
+Theorem C15_arity_declaration_field : forall p td s t, In td (tdecls (fpdecls p)) -> In s (td_xtors td) ->
+  (In t (map fbty (xs_args s)) \/ xs_ret s = Some t) ->
+  bad_arity_in_decl (tdecls (fpdecls p)) (td_params td) t -> exists e, check p = CErr e.
+Proof. exact arity_decl_field. Qed.
+Print Assumptions C15_arity_declaration_field.
+(* ... regression: the checker before that fix did not (witness `data Foo { C(x: List) }`) *)
+Theorem C15_regression_old_arity_declaration_field_refuted :
   ~ (forall p td s t, prog_names_ok p = true -> In td (tdecls (fpdecls p)) -> In s (td_xtors td) ->
        (In t (map fbty (xs_args s)) \/ xs_ret s = Some t) ->
-       bad_arity_in_decl (tdecls (fpdecls p)) (td_params td) t -> exists e, check p = CErr e).
-Proof. exact arity_decl_field_refuted. Qed.
-Print Assumptions C15_arity_declaration_field_refuted.
+       bad_arity_in_decl (tdecls (fpdecls p)) (td_params td) t -> exists e, old_check_decls p = CErr e).
+Proof. exact old_arity_decl_field_refuted. Qed.
+Print Assumptions C15_regression_old_arity_declaration_field_refuted.
 (* satisfiable: surplus / missing / nested wrong applications at a signature, a let, a destructor, a case *)
 Example C15_arity_examples :
   check p_arity_sig = CErr EWrongNumberOfTypeArguments /\ check p_arity_let = CErr EWrongNumberOfTypeArguments
